@@ -588,6 +588,9 @@ class Function(ClassOrFunc):
         def scan(children):
             for element in children:
                 if element.type in ('classdef', 'funcdef', 'lambdef'):
+                    # Only the body is a scope of its own. Defaults,
+                    # annotations and class bases are evaluated here.
+                    yield from scan(element.children[:-1])
                     continue
 
                 try:
